@@ -337,7 +337,7 @@ func c15(c *core.Ctx) {
 	}
 
 	// ---------------------------------------------------------------- R4
-	if c.Rule("R4", "transports delegate: their RegisterService/GetServiceInfo call the registry's with their own parameters, before any other registration side effect; in-process lookups go through QueryService", 4) {
+	if c.Rule("R4", "transports delegate: their RegisterService/GetServiceInfo call the registry's with their own parameters, before any other registration side effect; in-process lookups go through QueryService; no mutex is held across a call that refuses by panicking unless its release is deferred", 4) {
 		regLL := longLivedTypes(p)
 		var names []string
 		for k := range regLL {
@@ -421,8 +421,83 @@ func c15(c *core.Ctx) {
 		if n < 2 {
 			c.Fail("transports:registries", token.NoPos, "ANCHOR-MISSING: expected the in-process channel and the HTTP server to hold a registry, found %d", n)
 		}
+		// a refused registration (the registry panics) leaves the transport usable: no mutex is held across a call
+		// that can panic unless its release is deferred
+		nLocks := 0
+		for _, pk := range []string{"", "httpgrpc", "inprocgrpc"} {
+			for _, fn := range p.LibFuncs(pk) {
+				core.Instrs(fn, func(in ssa.Instruction) {
+					ul, ok := in.(*ssa.Call) // an explicit, not deferred, release
+					if !ok {
+						return
+					}
+					key, _, rel, _ := core.LockOp(&ul.Call)
+					if !rel || key == "" {
+						return
+					}
+					core.Instrs(fn, func(in2 ssa.Instruction) {
+						lk, ok := in2.(*ssa.Call)
+						if !ok {
+							return
+						}
+						k2, acq, _, _ := core.LockOp(&lk.Call)
+						if !acq || k2 != key || !core.Reachable(core.After(lk), ul) {
+							return
+						}
+						nLocks++
+						var bad *ssa.Call
+						between := core.Walk(core.After(lk), func(x ssa.Instruction) bool { return x == ssa.Instruction(ul) }, nil)
+						core.Instrs(fn, func(in3 ssa.Instruction) {
+							call, ok := in3.(*ssa.Call)
+							if !ok || !between[call] || bad != nil {
+								return
+							}
+							if st := core.InfoOf(&call.Call).Static; st != nil && strings.HasPrefix(core.InfoOf(&call.Call).Pkg, core.ModulePath) && mayPanicExplicitly(st, 0, map[*ssa.Function]bool{}) {
+								bad = call
+							}
+						})
+						kk := core.FuncName(fn) + ":lock(" + key + "):released-if-callee-panics"
+						if bad != nil {
+							c.Fail(kk, bad.Pos(), "%s is held across a call of %s, which refuses by panicking, and is released by a plain Unlock after it: a refused registration leaves the mutex locked for ever (every later registration or GetServiceInfo blocks), although a refusal is to leave the registry as it was", key, core.InfoOf(&bad.Call).Full())
+						} else {
+							c.Ok(kk, lk.Pos(), "no call that panics explicitly lies between this Lock and its plain Unlock")
+						}
+					})
+				})
+			}
+		}
+		if nLocks == 0 {
+			c.OkTrivial("registry-callers:no-plain-unlock", token.NoPos, "no mutex in the registry, the transports' registration paths or their callers is released by a plain (not deferred) Unlock")
+		}
 		c.EndRule()
 	}
+}
+
+// mayPanicExplicitly: fn (a module function) contains an explicit panic, or
+// statically calls a module function that does (depth 3).
+func mayPanicExplicitly(fn *ssa.Function, depth int, seen map[*ssa.Function]bool) bool {
+	if fn == nil || fn.Blocks == nil || depth > 3 || seen[fn] {
+		return false
+	}
+	seen[fn] = true
+	found := false
+	core.Instrs(fn, func(in ssa.Instruction) {
+		if found {
+			return
+		}
+		switch x := in.(type) {
+		case *ssa.Panic:
+			if x.Pos().IsValid() {
+				found = true
+			}
+		case *ssa.Call:
+			ci := core.InfoOf(&x.Call)
+			if ci.Static != nil && strings.HasPrefix(ci.Pkg, core.ModulePath) && mayPanicExplicitly(ci.Static, depth+1, seen) {
+				found = true
+			}
+		}
+	})
+	return found
 }
 
 func lookupOf(v ssa.Value) *ssa.Lookup {
